@@ -399,7 +399,7 @@ def h_resample(sx, cfg):
     sx.check("shape", ok)
     if not ok:
         return
-    _resample_cells(sx, g, "", n, tn, nv, vals, valid)
+    _resample_cells(sx, g, "", n, tn, nv, vals, valid, ties=cfg.get("ties", "upper"))
     if cfg.get("history"):
         # the mask and the values are edited in place between two resamplings: the second follows the current state
         w_ok = sx.bool("w_ok")
@@ -422,7 +422,7 @@ def h_resample(sx, cfg):
             sx.check(f"bad-target-{len(bad)}-refused", False)
 
 
-def _resample_cells(sx, g, tag, n, tn, nv, vals, valid):
+def _resample_cells(sx, g, tag, n, tn, nv, vals, valid, ties="upper"):
     nd = len(n)
     for idx in np.ndindex(*tn):
         cands = None
@@ -431,6 +431,10 @@ def _resample_cells(sx, g, tag, n, tn, nv, vals, valid):
             # a centre exactly on a source face belongs to the upper cell (cells are lower-face inclusive, C01); the
             # geometries used here are binary fractions, so the tie is exact in binary64 as well
             ja = [min(int(q // 1), n[a] - 1)]
+            if ties == "either" and q == q // 1 and 0 < q < n[a]:
+                # decimal geometry: the centre's binary64 coordinate may fall on either side of the face; value and validity
+                # must still come from one and the same source cell
+                ja = [int(q) - 1, int(q)]
             cands = [[j] for j in ja] if cands is None else [cd + [j] for cd in cands for j in ja]
         alts = []
         for cd in cands:
@@ -520,6 +524,10 @@ def tasks(tier):
         dict(n=[2, 3], target=[3, 2], box=[[0.0, 0.0], [2.0, 3.0]], nvdim=1, history=True),
         dict(n=[3, 2], target=[3, 2], box=[[-1.0, 0.5], [2.0, 4.5]], nvdim=2),
         dict(n=[2, 2, 1], target=[1, 3, 2], box=[[0, 0, 0], [4.0, 6.0, 1.0]], nvdim=1),
+        # decimal geometries with new centres on old faces
+        dict(n=[4], target=[2], box=[[0.0], [8e-9]], nvdim=1, ties="either"),
+        dict(n=[10], target=[5], box=[[0.0], [1.0]], nvdim=1, ties="either"),
+        dict(n=[2, 4], target=[3, 2], box=[[0.1, 0.0], [0.7, 8e-9]], nvdim=2, ties="either"),
     ]
     if not q:
         res += [dict(n=[5], target=[7], box=[[0.0], [1e-8]], nvdim=1), dict(n=[3, 3], target=[6, 1], box=[[0.0, 0.0], [3.0, 3.0]], nvdim=3),
